@@ -266,6 +266,10 @@ def run(ctx):
                 l1, where, l2, pa), {'kind': 'pair', 'a': pa, 'L': pL, 'l1': l1, 'l2': l2})
     npf += npairs
     ctx.cov['history_pairs'] = npairs
+    # ---- two threads computing commitments / proofs of different lists at the same time (the miner thread does so for every
+    #      work request while the networking thread validates blocks)
+    from .. import thrscen
+    ctx.cov['thread_schedules'] = thrscen.run(ctx, 'C17', 1 if ctx.quick else 2)
     ctx.cov.update({
         'evaluations': nlists + ne + npf + nb, 'distinct_nontrivial': nlists + ne,
         'rule': "(i) every list over an alphabet of %d independent ids with length 1..%d%s: commitments pairwise distinct; "
@@ -281,6 +285,9 @@ def run(ctx):
 
 
 def replay(data, ctx):
+    if 'thread_scenario' in data:
+        from .. import thrscen
+        return thrscen.replay(data)
     from skepticoin.merkletree import get_merkle_root
     out = []
     if data['kind'] == 'lists':
